@@ -4,6 +4,7 @@ import (
 	"bytes"
 	"fmt"
 	"math/rand/v2"
+	"strings"
 	"sync"
 	"sync/atomic"
 	"testing/synctest"
@@ -58,7 +59,25 @@ func c12Gen(rng *rand.Rand) c12Sched {
 	default:
 		nw = 1 + rng.IntN(16)
 	}
-	mode := rng.IntN(4)
+	mode := rng.IntN(5)
+	if mode == 4 {
+		// synchronised bursts: every worker follows the same schedule, so at each step all of
+		// them call Current() at the same virtual instant (also at the instant a renewal is due)
+		nw = 4 + rng.IntN(13)
+		n := 3 + rng.IntN(10)
+		var steps []c12Step
+		for i := 0; i < n; i++ {
+			d := c12Gaps[rng.IntN(len(c12Gaps))]
+			if rng.IntN(2) == 0 {
+				d = time.Duration(1+rng.IntN(30)) * time.Hour
+			}
+			steps = append(steps, c12Step{Sleep: int64(d), Op: 0})
+		}
+		for w := 0; w < nw; w++ {
+			s.Workers = append(s.Workers, steps)
+		}
+		return s
+	}
 	for w := 0; w < nw; w++ {
 		n := 3 + rng.IntN(40/nw+5)
 		var steps []c12Step
@@ -96,7 +115,7 @@ func c12Gen(rng *rand.Rand) c12Sched {
 
 type c12Stats struct {
 	current, getOK, getMiss, probesOK, probesExpired, renewals, concurrent int64
-	maxSpanDays                                                              int64
+	maxSpanDays                                                            int64
 }
 
 func c12RunOne(s c12Sched) (rprobs []c12Problem, rst c12Stats, bubble string) {
@@ -262,7 +281,23 @@ func c12RunOne(s c12Sched) (rprobs []c12Problem, rst c12Stats, bubble string) {
 }
 
 func init() {
+	// the provider inside the real listeners: what the NTP and NTS-KE servers seal new cookies
+	// with and how long they honour old ones while the keys age (shared with C11, leg C)
+	Legs["c12server"] = func(args []string) {
+		r := ev.NewLeg("C12")
+		c11Rotation(r, 12)
+		r.FinishLeg()
+	}
 	register("C12", "exploration", func(r *ev.Run) {
+		if r.Only() == "" || strings.HasPrefix(r.Only(), "rot") {
+			var env []string
+			if r.Only() != "" {
+				env = append(env, "VERIF_ONLY="+r.Only())
+			}
+			if o := r.RunLeg("plain", "c12server", 20*time.Minute, env); !o.OK {
+				r.Inconclusive("server leg did not finish: " + o.Stderr)
+			}
+		}
 		n := r.Pick(400, 30000)
 		var tot c12Stats
 		var tmu sync.Mutex
@@ -318,9 +353,9 @@ func init() {
 		r.Set("longest_schedule_days", tot.maxSpanDays)
 		r.Assume("virtual time of testing/synctest (GOEXPERIMENT=synctest, go1.24); validity bounds are inclusive as in the code")
 		r.Finish("call schedules of 1..16 goroutines over virtual days inside synctest bubbles (race detector on): periodic, bursts with idle gaps from a boundary pool "+
-			"{0,1ns,...,24h-1ns,24h,24h+1ns,48h,71h,72h-1ns,72h,72h+1ns,73h,10d}, random, jittered boundaries; operations Current / Get(known id) / Get(random id); every Current() spawns probes "+
+			"{0,1ns,...,24h-1ns,24h,24h+1ns,48h,71h,72h-1ns,72h,72h+1ns,73h,10d}, random, jittered boundaries, synchronised bursts (4..16 goroutines calling Current() at the same virtual instant, also when a renewal is due); operations Current / Get(known id) / Get(random id); every Current() spawns probes "+
 			"Get(id) at t, t+24h, t+48h-1ns, t+48h (must succeed with the same value) and at generated+72h+1ns, +96h (must fail). Oracle per call at its exact virtual instant: NotBefore<=t<=NotAfter, "+
-			"t-NotBefore<=24h, NotAfter-NotBefore=72h, identifier >= every identifier seen before the call began, identifier never maps to two keys. distinct_nontrivial = distinct schedules", 5)
+			"t-NotBefore<=24h, NotAfter-NotBefore=72h, identifier >= every identifier seen before the call began, identifier never maps to two keys. Server leg (child process, real NTP and NTS-KE listeners, keys aged through the provider's verif hook by 1..100 h between exchanges): cookies issued <= 2 days ago served, cookies of keys generated > 3 days ago refused, every fresh cookie sealed under a key generated <= 24 h before. distinct_nontrivial = distinct schedules and ageing plans", 5)
 	})
 }
 
